@@ -8,18 +8,14 @@ iterate, a dense reference solution, and judges the reported status against the 
 the solver produced.
 
 Findings (standard mechanism: executed and judged on every run, matched against KNOWN_FINDINGS.json by signature):
-  c07-edge:F11 (life-cycle stream) BiCGStabL returns Status::undefined when the initial defect is already converged
-               (same pattern as the fixed F-C07-1 of BiCGStab)
-  c07-edge:F10 (life-cycle stream) BiCGStabL starts every solve with u_j := u_j * (-beta), beta = 0, instead of
-               clearing u_j: after a solve that broke down with NaN/Inf the object stays poisoned
-  c07-edge:F9  (life-cycle stream) RGCR keeps the recycled directions p_j, q_j = A p_j across done_numeric()/
-               init_numeric(); after a change of the matrix values q_j != A p_j, the recursively updated defect is not
-               the true residual any more and 'success' is returned with a residual of order 1
-  c07-edge:F8  (life-cycle stream) IDRS: done_symbolic() releases the shadow-space vectors but does not reset the
-               'shadow space is set up' flag: after done()+init() the object iterates with uninitialised vectors
   c07-edge:F7  (double-precision stream) FGMRES divides by the norm of the new Arnoldi vector without a happy-breakdown
                test: on a system whose Krylov space is smaller than krylov_dim (e.g. the identity) it returns 'aborted'
                with a NaN iterate
+  (F-C07-8 IDRS kept _shadow_space_setup over done_symbolic(); F-C07-9 RGCR recycled its direction lists across
+  done_numeric()/init_numeric() with new matrix values ('success' with residual 30); F-C07-10 BiCGStabL did not clear its
+  direction vectors (NaN of an earlier solve survived); F-C07-11 BiCGStabL returned Status::undefined on an already
+  converged initial defect — all four found by the life-cycle stream and fixed in /repo (685d21123, 34b320bb6,
+  ab5d9bae1, 624f5fec9); their inputs stay in the life-cycle corpus as regression lines under the strict oracle.)
   (F-C07-3, 'success' judged from the stale initial defect when the defect computation is skipped (default
   skip_defect_calc, min_iter >= max_iter), is fixed in /repo (8aa081eb5): such a run now returns max_iter; its input
   stays in the corpus as a regression line.)
@@ -1075,7 +1071,8 @@ def oracle_t3(case, out):
 
 SESSIOND_KINDS = ["pcg", "pcr", "pmr", "pcgnr", "rich", "bicgstab", "bicgstabl", "fgmres", "gmres", "rgcr", "idrs", "cheb"]
 # not instantiable on DenseVector (they need Global::Vector::dot_async / norm2_async): PipePCG, GroppPCG, RBiCGStab
-RECYCLING_KINDS = ("rgcr",)   # RGCR keeps a quarter of its direction lists from one solve to the next, by design
+RECYCLING_KINDS = ("rgcr",)   # RGCR keeps a quarter of its direction lists from one solve to the next (by design),
+                              # but only as long as no init/done function is called in between
 
 
 def gen_sessiond(rng):
@@ -1171,24 +1168,17 @@ def oracle_sessiond(case, out):
     tol_rel, tol_abs, tol_low = (Fr(float(cfg.tol_rel)), Fr(float(cfg.tol_abs)), Fr(float(cfg.tol_abs_low)))
     cur = sc.mats[0]
     k = 0
-    fresh_lists = True       # no solve since the last init_symbolic (relevant for the recycling solver)
-    stale_shadow = False
-    stale_recycled = False
-    poisoned = False         # an earlier solve on this object broke down with NaN/Inf
+    fresh_lists = True       # no solve since the last re-initialisation (relevant for the recycling solver RGCR)
     edge = None
     hist = []
     for st in sc.steps:
         hist.append(st[0])
         if st[0] == "M":
-            if sc.mats[st[1]] != cur and not fresh_lists:
-                stale_recycled = True   # RGCR: recycled directions of the OLD matrix survive (finding c07-edge:F9)
             cur = sc.mats[st[1]]
             continue
-        if st[0] in ("D", "R") and k > 0:
-            stale_shadow = True   # IDRS: done_symbolic() after a solve (finding c07-edge:F8)
-        if st[0] in ("S", "R"):
+        if st[0] in ("S", "N", "E", "D", "R"):
+            # any (numeric or symbolic) re-initialisation clears RGCR's recycled directions (fix of c07-edge:F9)
             fresh_lists = True
-            stale_recycled = False
             continue
         if st[0] not in ("a", "c"):
             continue
@@ -1204,19 +1194,10 @@ def oracle_sessiond(case, out):
         if t[6 + n] != "1":
             return tag + "the right-hand side was modified"
         stt, it = int(t[1]), int(t[2])
-        if sc.kind == "bicgstabl" and stt == 0 and it == 0 and reused == fresh and \
-                (vlib.parse_frac(t[3]) < cfg.tol_abs_low or vlib.parse_frac(t[3]) <= EPS2):
-            edge = edge or F11_MSG % (k - 1)
-            fresh_lists = False
-            continue
         if stt in (0, 1) or int(t[7 + n]) != stt:
             return tag + "returned status %s / get_status() %s" % (ST_NAMES.get(stt), t[7 + n])
         # (1) history independence: same arithmetic in the same order => bit-identical results
-        if reused != fresh and sc.kind == "bicgstabl" and poisoned:
-            edge = edge or F10_MSG % (k - 1, " ".join(hist[:-1][-6:]))
-        elif reused != fresh and sc.kind == "idrs" and stale_shadow:
-            edge = edge or F8_MSG % (k - 1, " ".join(hist[:-1][-6:]))
-        elif reused != fresh and not (sc.kind in RECYCLING_KINDS and not fresh_lists):
+        if reused != fresh and not (sc.kind in RECYCLING_KINDS and not fresh_lists):
             return tag + "the reused solver object returned (status %s, %s iterations) something different from a " \
                          "brand-new object on the same system (status %s, %s iterations): history dependence" % (
                              ST_NAMES.get(stt), it, ST_NAMES.get(int(fresh[0])), fresh[1])
@@ -1224,7 +1205,6 @@ def oracle_sessiond(case, out):
         STATS["sessiond_pairs"] = STATS.get("sessiond_pairs", 0) + 1
         # (2) success => true residual of the returned doubles within the a-priori bound
         if "nonfinite" in reused:
-            poisoned = True
             if stt == 2:
                 return tag + "'success' with a non-finite value"
             continue
@@ -1242,9 +1222,6 @@ def oracle_sessiond(case, out):
             if sum(v * v for v in r) > bound * bound:
                 msg = "'success' but the true residual %.3e of the returned doubles exceeds tol %.3e + rounding " \
                       "allowance %.3e" % (math.sqrt(float(sum(v * v for v in r))), float(thr), float(slack))
-                if sc.kind == "rgcr" and stale_recycled:
-                    edge = edge or F9_MSG % (k - 1, " ".join(hist[:-1][-6:]), msg)
-                    continue
                 return tag + msg
             STATS["sessiond_success_checks"] = STATS.get("sessiond_success_checks", 0) + 1
         bump(STATS["terminal_status"], "sessiond-" + sc.kind + ":" + ST_NAMES[stt])
@@ -1302,16 +1279,6 @@ def signature(case, out, why):
     return "%s:%s" % (" ".join(t[:2]), (why or "")[:60])
 
 
-F11_MSG = "[c07-edge:F11] solve %d of the session: BiCGStabL returns Status::undefined when the initial defect already meets " \
-          "the stopping criterion (the loop is skipped and the function falls through to its final return)"
-F10_MSG = "[c07-edge:F10] solve %d of the session (bicgstabl after %s): BiCGStabL resets its direction vectors by " \
-          "u_j := u_j * (-beta) with beta = 0; NaN/Inf left by an earlier broken-down solve survive (0 * NaN = NaN), so the " \
-          "reused object aborts where a brand-new object succeeds"
-F9_MSG = "[c07-edge:F9] solve %d of the session (rgcr after %s): RGCR keeps its recycled direction lists p_j, q_j = A_old p_j " \
-         "across done_numeric()/init_numeric() although the matrix values changed: %s"
-F8_MSG = "[c07-edge:F8] solve %d of the session (idrs after %s): IDRS::done_symbolic() clears the shadow-space vectors " \
-         "but leaves _shadow_space_setup = true, so after init_symbolic() the solver iterates with uninitialised " \
-         "shadow vectors: the reused object differs from a brand-new object on the same system"
 F7_MSG = "[c07-edge:F7] solve %d (double): FGMRES does not handle the happy breakdown (Arnoldi vector of norm 0 when the " \
          "Krylov space is exhausted): division by (nearly) zero, 'aborted'/'diverged' with a non-finite or huge iterate on a " \
          "nonsingular system"
@@ -1386,14 +1353,14 @@ CORPUS = [
 
 
 SD_CORPUS = [
-    # open finding c07-edge:F11: BiCGStabL, zero right-hand side
+    # F-C07-11 (fixed 624f5fec9, regression line): BiCGStabL, zero right-hand side
     'sessiond bicgstabl 2 1 2 1 1 3 none none 1/100000000 1000000000 0 1000000000 1000000000000 19/20 0 30 0 1 1 3 S N a 5 5 0 0',
-    # open finding c07-edge:F10: BiCGStabL poisoned by an earlier breakdown
+    # F-C07-10 (fixed ab5d9bae1, regression line): BiCGStabL poisoned by an earlier breakdown
     'sessiond bicgstabl 3 1 3/1 0/1 0/1 1/1 13/4 3/4 -3/2 0/1 3/1 none jac 1 1/100000000 1000000000/1 0/1 1000000000/1 1000000000000/1 19/20 0 80 0 1 1/1 28 S N E M 0 N R E N E M 0 N a -1/1 -1/1 3/1 -1/2 0/1 -2/1 E M 0 N E M 0 N E N a 2/1 2/1 -2/1 1/1 -1/8 -2/1 E D S M 0 N R a -4/1 3/1 1/1 2/1 -4/1 -1/1',
-    # open finding c07-edge:F8: IDRS after done()+init()
+    # F-C07-8 (fixed 685d21123, regression line): IDRS after done()+init()
     "sessiond idrs 4 1 4 -1 0 0 -1 4 -1 0 0 -1 4 -1 0 0 -1 4 none none 1/100000000 1000000000 0 1000000000 1000000000000 "
     "19/20 0 60 0 1 1 5 S N a 0 0 0 0 1 2 3 4 R a 0 0 0 0 1 2 3 4",
-    # open finding c07-edge:F9: RGCR after done_numeric / new matrix values / init_numeric
+    # F-C07-9 (fixed 34b320bb6, regression line): RGCR after done_numeric / new matrix values / init_numeric
     "sessiond rgcr 6 2 4 -1 0 0 0 0 -1 4 -1 0 0 0 0 -1 4 -1 0 0 0 0 -1 4 -1 0 0 0 0 -1 4 -1 0 0 0 0 -1 4 9 1 0 0 0 2 1 9 1 0 0 0 0 1 9 1 0 0 0 0 1 9 1 0 0 0 0 1 9 1 2 0 0 0 1 9 none none 1/100000000 1000000000 0 1000000000 1000000000000 19/20 0 60 0 1 1 7 S N a 0 0 0 0 0 0 1 2 3 4 5 6 E M 1 N a 0 0 0 0 0 0 1 2 3 4 5 6",
 ]
 T3_CORPUS = [
